@@ -497,8 +497,9 @@ def run(ctx, fx, scope_files=None, label="R-TF"):
                 g = an.guaranteed(fn, b)
                 missing = need - g
                 results[(r["id"], b)] = (r, c, need, missing, g)
-                if missing and r["unsafe"]:
-                    # contract delegated to the callers of this unsafe fn
+                if missing and (r["unsafe"] or r["vis"] != "pub"):
+                    # contract delegated to the callers: an unsafe fn states it in its signature, a private
+                    # safe wrapper has all of its call sites inside the crate, where they are checked
                     cur = eff.setdefault(r["id"], set())
                     if not missing <= closure(cur):
                         cur |= missing
@@ -510,11 +511,11 @@ def run(ctx, fx, scope_files=None, label="R-TF"):
         nsites += 1
         ctx.analysed_fns.add(fid)
         callee_short = c["f"].rsplit("::", 1)[-1]
-        ok = not missing or r["unsafe"]
+        ok = not missing or r["unsafe"] or r["vis"] != "pub"
         ctx.obligation(label, fid, callee_short, ok, nontrivial=bool(need),
                        sample={"caller": fid, "callee": c["f"], "needs": sorted(need),
                                "guaranteed_by_dominating_checks": sorted(g), "line": c["ln"]})
-        if missing and not r["unsafe"]:
+        if missing and not r["unsafe"] and r["vis"] == "pub":
             ctx.violation(label, fid, "call " + callee_short,
                           "call of #[target_feature] fn %s needs %s but only %s is guaranteed by dominating runtime checks"
                           % (c["f"], sorted(missing), sorted(g)), r["file"], c["ln"])
@@ -523,8 +524,8 @@ def run(ctx, fx, scope_files=None, label="R-TF"):
     # fallback path: dispatchers (safe, no tf) keep a path to return without any gated call
     ndisp = 0
     for r in fx.cg_all:
-        if r["tf"] or r["unsafe"]:
-            continue
+        if r["tf"] or r["unsafe"] or r["id"] in eff:
+            continue        # kernels, unsafe fns and private wrappers that delegate the check are not dispatchers
         if scope_files is not None and r["file"] not in scope_files:
             continue
         if not any(c[0] in eff for c in r["calls"]):
